@@ -3,8 +3,8 @@
 Numeric coverage counters are summed, samples concatenated, exhaustive AND-ed."""
 import json, sys, glob, os
 ID = sys.argv[1]
-root = os.environ.get("VERIF_ROOT", "/verif")
-files = sorted(glob.glob(f"{root}/.build/parts/{ID}.*.json"))
+root = os.environ.get("VERIF_OUT") or os.environ.get("VERIF_ROOT", "/verif")
+files = sorted(glob.glob(f"{root}/parts/{ID}.*.json") if os.environ.get("VERIF_OUT") else glob.glob(f"{root}/.build/parts/{ID}.*.json"))
 if not files:
     print("merge: no partial evidence for", ID); sys.exit(3)
 parts = [json.load(open(f)) for f in files]
